@@ -640,6 +640,23 @@ func (r *c03Runner) slashTo(op int, eh int64, p sdkmath.LegacyDec) string {
 	return r.slash(op, eh, target.QuoInt64(power), power)
 }
 
+// tokenMeta: AssetsKeeper.UpdateStakingAssetMetaInfo (what the gateway's updateToken precompile call ends in) - rewrites the
+// meta information of a registered staking asset; as < 0: an asset id that is not registered (rejected)
+func (r *c03Runner) tokenMeta(as int, meta string) string {
+	w := r.w
+	id := "0x1111111111111111111111111111111111111111_0x65"
+	if as >= 0 && as < len(w.assetIDs) {
+		id = w.assetIDs[as]
+	} else if as == len(w.assetIDs) {
+		id = w.natID
+	}
+	res := r.exec(func(ctx sdk.Context) error {
+		return w.env.App.AssetsKeeper.UpdateStakingAssetMetaInfo(ctx, id, meta)
+	})
+	r.record(c03Op{Kind: "UpdateTokenMeta", Asset: as, Tx: meta, Height: r.ctx.BlockHeight()}, cApp("UpdateTokenMeta", r.S(id)), res, nil)
+	return res
+}
+
 func (r *c03Runner) holdOp(rk string, inc bool) string {
 	k := r.w.env.App.DelegationKeeper
 	kind := "HoldDec"
